@@ -21,7 +21,7 @@ variable {σ : Type}
 theorem c19_processor_only_after_true_checkpoint (cfg : Cfg) (stages : List (Stage σ)) (x : σ) :
     GatedFrom stages none (result cfg stages x).log := by
   unfold result run
-  exact runFrom_gated cfg stages stages 0 ⟨x, 1, none⟩ (by intro k s h; simpa using h) none
+  exact runFrom_gated cfg stages stages 0 ⟨x, clamp cfg 1, none⟩ (by intro k s h; simpa using h) none
 
 /-- Index form of the same statement: if `log[k]` is a processor event of a gated stage then `k ≥ 1` and
     `log[k-1]` is its `true` checkpoint on the same signal. -/
@@ -51,6 +51,14 @@ theorem c19_processor_only_after_true_checkpoint_idx (cfg : Cfg) (stages : List 
   · cases h
   · exact h
 
+/-- The same clause in its negative form: **a checkpoint that returned false or raised never lets its stage run**, in either
+    failure-mode setting — if the log holds a checkpoint event of stage `i` whose answer is not `true`, it holds no processor
+    event of stage `i` at all (each stage consults its gate at most once per run, so there is no second chance). -/
+theorem c19_closed_gate_never_runs_the_stage (cfg : Cfg) (stages : List (Stage σ)) (x : σ) (i : Nat) (sig : σ)
+    (r : Out Bool) (hcp : (Ev.cp i sig r) ∈ (result cfg stages x).log) (hr : r ≠ .ok true) :
+    ∀ sig', (Ev.proc i sig') ∉ (result cfg stages x).log :=
+  runFrom_closed cfg stages 0 ⟨x, clamp cfg 1, none⟩ i sig r hcp hr
+
 /-- With halt-on-failure, after a stage that ended BLOCKED or FAILED (a rejected or raising gate, or a
     required stage whose processor failed without recovery) no callback of any later stage runs and no later
     stage produces a result. -/
@@ -59,31 +67,31 @@ theorem c19_halt_runs_nothing_further (cfg : Cfg) (hh : cfg.halt = true) (stages
     (hst : r.status = .blocked ∨ r.status = .failed) :
     (∀ e ∈ (result cfg stages x).log, e.idx ≤ r.idx) ∧
     (∀ r' ∈ (result cfg stages x).results, r'.idx ≤ r.idx) :=
-  runFrom_halt cfg hh stages 0 ⟨x, 1, none⟩ r hr hst
+  runFrom_halt cfg hh stages 0 ⟨x, clamp cfg 1, none⟩ r hr hst
 
 /-- A run is reported successful exactly when every stage, in order, produced a COMPLETED result. -/
 theorem c19_success_iff_all_completed_in_order (cfg : Cfg) (stages : List (Stage σ)) (x : σ) :
     (result cfg stages x).success = true ↔
       ((result cfg stages x).results.map (·.idx) = List.range stages.length ∧
        ∀ r ∈ (result cfg stages x).results, r.status = .completed) := by
-  have hshape := runFrom_shape cfg stages 0 ⟨x, 1, none⟩
-  have hall := runFrom_allCompleted cfg stages 0 ⟨x, 1, none⟩
+  have hshape := runFrom_shape cfg stages 0 ⟨x, clamp cfg 1, none⟩
+  have hall := runFrom_allCompleted cfg stages 0 ⟨x, clamp cfg 1, none⟩
   simp only [result, run, Bool.and_eq_true, beq_iff_eq, Option.isNone_iff_eq_none]
   constructor
   · rintro ⟨hc, -⟩
     unfold completedCount at hc
     have hle := List.length_filter_le (fun r : StageRes σ => decide (r.status = .completed))
-      (runFrom cfg 0 stages ⟨x, 1, none⟩).results
-    have hlen : (runFrom cfg 0 stages ⟨x, 1, none⟩).results.length = stages.length := by omega
+      (runFrom cfg 0 stages ⟨x, clamp cfg 1, none⟩).results
+    have hlen : (runFrom cfg 0 stages ⟨x, clamp cfg 1, none⟩).results.length = stages.length := by omega
     refine ⟨by rw [hshape.1, hlen, List.range_eq_range'], ?_⟩
     have hfl : (List.filter (fun r : StageRes σ => decide (r.status = .completed))
-        (runFrom cfg 0 stages ⟨x, 1, none⟩).results).length
-        = (runFrom cfg 0 stages ⟨x, 1, none⟩).results.length := by omega
+        (runFrom cfg 0 stages ⟨x, clamp cfg 1, none⟩).results).length
+        = (runFrom cfg 0 stages ⟨x, clamp cfg 1, none⟩).results.length := by omega
     intro r hr
     have := (List.length_filter_eq_length_iff.mp hfl) r hr
     simpa using this
   · rintro ⟨hidx, hcomp⟩
-    have hlen : (runFrom cfg 0 stages ⟨x, 1, none⟩).results.length = stages.length := by
+    have hlen : (runFrom cfg 0 stages ⟨x, clamp cfg 1, none⟩).results.length = stages.length := by
       have := congrArg List.length hidx; simpa using this
     refine ⟨?_, (hall hcomp).1⟩
     unfold completedCount
@@ -94,8 +102,8 @@ theorem c19_final_output_is_composition (cfg : Cfg) (stages : List (Stage σ)) (
     (hs : (result cfg stages x).success = true) :
     (result cfg stages x).final = compose stages x ∧ (result cfg stages x).final.isSome = true := by
   have h := (c19_success_iff_all_completed_in_order cfg stages x).mp hs
-  have hall := runFrom_allCompleted cfg stages 0 ⟨x, 1, none⟩ h.2
-  have hlen : (runFrom cfg 0 stages ⟨x, 1, none⟩).results.length = stages.length := by
+  have hall := runFrom_allCompleted cfg stages 0 ⟨x, clamp cfg 1, none⟩ h.2
+  have hlen : (runFrom cfg 0 stages ⟨x, clamp cfg 1, none⟩).results.length = stages.length := by
     have := congrArg List.length h.1; simpa [result, run] using this
   have hc := hall.2 hlen
   have hfin : (result cfg stages x).final = some (run cfg stages x).acc.cur := by
@@ -108,11 +116,31 @@ theorem c19_no_output_unless_success (cfg : Cfg) (stages : List (Stage σ)) (x :
     (hs : (result cfg stages x).success = false) : (result cfg stages x).final = none := by
   simp only [result] at hs ⊢; simp [hs]
 
-/-- Reported amplification is the running clamped product of the completed stages' reported factors. -/
-theorem c19_amplification_is_clamped_product (cfg : Cfg) (hmax : 1 ≤ cfg.maxAmp) (stages : List (Stage σ)) (x : σ) :
-    (result cfg stages x).amplification = clampedProduct cfg 1 (result cfg stages x).results ∧
+/-- Reported amplification is the clamped product of the completed stages' reported factors, **for every configuration**
+    (also a maximum below 1, factors 0 / negative / above the maximum): the running gain starts at 1, is multiplied by the
+    factor of every completed stage (1 for a stage completed by its error handler) and is held at `max_amplification` from
+    the start and after every step — "clamped product" is this RUNNING clamp (the gain control of the anchored mechanism
+    "processor call, amplification clamp" sits inside the loop), which differs from clamping the plain product once a factor
+    below 1 follows a clamp (factors 200, 1/2 with maximum 100 report 50: `example` below); where every factor is at least 1
+    the two coincide (`c19_amplification_is_clamp_of_plain_product`).  The reported gain never exceeds the maximum. -/
+theorem c19_amplification_is_clamped_product (cfg : Cfg) (stages : List (Stage σ)) (x : σ) :
+    (result cfg stages x).amplification = clampedProduct cfg (clamp cfg 1) (result cfg stages x).results ∧
     (result cfg stages x).amplification ≤ cfg.maxAmp :=
-  runFrom_amp cfg stages 0 ⟨x, 1, none⟩ hmax
+  runFrom_amp cfg stages 0 ⟨x, clamp cfg 1, none⟩ (clamp_le cfg 1)
+
+/-- With a maximum of at least 1 (every shipped default) the running product starts at exactly 1. -/
+theorem c19_amplification_is_clamped_product_from_one (cfg : Cfg) (hmax : 1 ≤ cfg.maxAmp) (stages : List (Stage σ)) (x : σ) :
+    (result cfg stages x).amplification = clampedProduct cfg 1 (result cfg stages x).results := by
+  have h := (c19_amplification_is_clamped_product cfg stages x).1
+  rwa [clamp_id cfg 1 hmax] at h
+
+/-- Where every completed stage's factor is at least 1 (and the maximum is not negative) the running clamp IS the clamp of
+    the plain product of the completed stages' factors — the other reading of "clamped product". -/
+theorem c19_amplification_is_clamp_of_plain_product (cfg : Cfg) (h0 : 0 ≤ cfg.maxAmp) (stages : List (Stage σ)) (x : σ)
+    (hf : ∀ r ∈ (result cfg stages x).results, r.status = .completed → 1 ≤ r.factor) :
+    (result cfg stages x).amplification = clamp cfg (plainProduct 1 (result cfg stages x).results) := by
+  rw [(c19_amplification_is_clamped_product cfg stages x).1]
+  exact clampedProduct_eq_clamp_plain cfg h0 _ 1 hf
 
 /-- **The `on_stage_complete` observer is transparent**, whether it returns or raises: every theorem above also holds for
     a cascade built with an observer, because the reported result is the one of the cascade without it.  (The observer's
@@ -127,7 +155,7 @@ theorem c19_observer_sees_only_completed_stages (cfg : Cfg) (obs : Option StageO
     (j : Nat) (hj : j ∈ (resultO cfg obs stages x).2) :
     (∃ r ∈ (result cfg stages x).results, r.idx = j ∧ r.status = .completed) ∧
     (∃ sig, (.proc j sig) ∈ (result cfg stages x).log) :=
-  runFromO_seen cfg obs stages 0 ⟨x, 1, none⟩ j hj
+  runFromO_seen cfg obs stages 0 ⟨x, clamp cfg 1, none⟩ j hj
 
 /-- **The loop body of the source is the model's.**  `Gen/CascadeTable.lean` is regenerated on every run by evaluating the
     REAL `Cascade.run` on every one-stage pipeline and every two-stage pipeline of required stages over the behaviour
@@ -149,9 +177,12 @@ Python source of `Cascade.run` symbolically (own helper methods inlined, every p
 after the loop explored; the user callbacks and the configuration are the branching points).  A path the translator cannot
 follow is `none`, so the theorems below fail when the source leaves the understood subset (fail closed). -/
 
-/-- Before the first stage the loop-carried state of the source is: the input signal, running gain 1, nothing blocked. -/
-theorem c19_translation_agrees_init (x : σ) : Gen.CascadeTranslated.init x = some ⟨x, 1, none⟩ := by
-  rfl
+/-- Before the first stage the loop-carried state of the source is: the input signal, running gain 1 held at the maximum
+    (`min(1.0, max_amplification)`), nothing blocked. -/
+theorem c19_translation_agrees_init (cfg : Cfg) (x : σ) :
+    Gen.CascadeTranslated.init cfg x = some ⟨x, clamp cfg 1, none⟩ := by
+  unfold Gen.CascadeTranslated.init clamp
+  (repeat' split) <;> simp_all
 
 local macro "c19_leaf" : tactic =>
   `(tactic| (simp only [Gen.CascadeTranslated.body, modelStep, stageStep, stageSeen, gateOpen, process, procOutcome, clamp,
@@ -222,7 +253,7 @@ example : (completedCount (run ⟨false, 100⟩ [sRejectE, sPassE] 5).results = 
     epilogue — is the model's run**, for every configuration, both observers, every stage list and every input signal. -/
 theorem c19_translated_run_is_model (cfg : Cfg) (obs : Option StageObs) (cobs : Option CascObs) (stages : List (Stage σ))
     (x : σ) :
-    runTr Gen.CascadeTranslated.init (Gen.CascadeTranslated.body cfg obs) (Gen.CascadeTranslated.finish cobs) stages x =
+    runTr (Gen.CascadeTranslated.init cfg) (Gen.CascadeTranslated.body cfg obs) (Gen.CascadeTranslated.finish cobs) stages x =
       some (resultC cfg obs cobs stages x) := by
   have hloop : ∀ (rest : List (Stage σ)) (i : Nat) (a : Acc σ),
       loopTr (Gen.CascadeTranslated.body cfg obs) i rest a = some (runFromO cfg obs i rest a) := by
@@ -246,7 +277,7 @@ theorem c19_completion_observer_is_transparent_or_raises (cfg : Cfg) (obs : Opti
     ((resultC cfg obs cobs stages x).1 = .ok (result cfg stages x) ∨ (resultC cfg obs cobs stages x).1 = .raise) ∧
     ((cobs = none ∨ ∃ f, cobs = some f ∧ f () = .ok ()) → (resultC cfg obs cobs stages x).1 = .ok (result cfg stages x)) ∧
     (resultC cfg obs cobs stages x).2 = (resultO cfg obs stages x).2 := by
-  have hres : finish stages.length (runFromO cfg obs 0 stages ⟨x, 1, none⟩).1 = result cfg stages x := by
+  have hres : finish stages.length (runFromO cfg obs 0 stages ⟨x, clamp cfg 1, none⟩).1 = result cfg stages x := by
     rw [← c19_observer_is_transparent cfg obs stages x]; rfl
   refine ⟨?_, ?_, rfl⟩
   · simp only [resultC, finishC]
@@ -281,5 +312,40 @@ example : (resultO ⟨true, 100⟩ (some fun _ => .raise)
       [⟨none, fun _ => .raise, none, false, 2⟩, sPass] 5).2 = [1] ∧
     (resultO ⟨true, 100⟩ (some fun _ => .raise)
       [⟨none, fun _ => .raise, none, false, 2⟩, sPass] 5).1.success = false := by decide
+
+/-- factors 2, 2 with maximum 3: hypotheses of `c19_amplification_is_clamp_of_plain_product` hold, reported 3 = clamp of 4 -/
+example : (result ⟨true, 3⟩ [sPass, sPass] 5).amplification = 3 ∧
+    (∀ r ∈ (result ⟨true, 3⟩ [sPass, sPass] 5).results, r.status = .completed → 1 ≤ r.factor) := by decide +kernel
+
+private def sAmp (f : Rat) : Stage Nat := ⟨none, fun x => .ok (x + 1), none, true, f⟩
+
+/-- the two readings of "clamped product" differ once a factor below 1 follows a clamp: factors 200, 1/2 with maximum 100
+    report 50 (running clamp: 100 · 1/2), the plain product 100 clamped would be 100 -/
+example : (result ⟨true, 100⟩ [sAmp 200, sAmp (1/2)] 5).amplification = 50 ∧
+    clamp ⟨true, 100⟩ (plainProduct 1 (result ⟨true, 100⟩ [sAmp 200, sAmp (1/2)] 5).results) = 100 := by decide +kernel
+
+/-- a maximum below 1: a run whose only stage is completed by its error handler (reported factor 1) reports the maximum, not 1;
+    so does a run without stages -/
+example : (result ⟨true, 1/2⟩ [⟨none, fun _ => .raise, some fun _ => .ok 9, true, 4⟩] 5).amplification = 1/2 ∧
+    (result ⟨true, 1/2⟩ [⟨none, fun _ => .raise, some fun _ => .ok 9, true, 4⟩] 5).success = true ∧
+    (result (σ := Nat) ⟨true, 1/2⟩ [] 5).amplification = 1/2 := by decide +kernel
+
+/-- a rejecting gate and a raising gate without halt-on-failure: hypotheses of `c19_closed_gate_never_runs_the_stage` hold -/
+example : (Ev.cp 0 5 (.ok false)) ∈ (result ⟨false, 100⟩ [sReject, sPass] 5).log ∧
+    (Ev.cp 0 5 .raise) ∈ (result ⟨false, 100⟩ [sRaiseGate, sPass] 5).log := by decide +kernel
+
+/-- the shipped MAPK preset as an instance of `∀ stages` (signals abstracted to the tier they carry: 0 = a raw, non-dict
+    input, k = the dict of tier k; tier 1 ungated, tier 2 gated on `active`, tier 3 gated on `tier == 2`; a raw signal at a
+    gate makes `x.get` raise): the default factors 10·10·10 are held at the default maximum 100 -/
+private def mapk (a1 a2 a3 : Rat) : List (Stage Nat) :=
+  [⟨none, fun _ => .ok 1, none, true, a1⟩,
+   ⟨some fun x => if x = 0 then .raise else .ok true, fun x => if x = 0 then .raise else .ok 2, none, true, a2⟩,
+   ⟨some fun x => if x = 0 then .raise else .ok (x == 2), fun x => if x = 0 then .raise else .ok 3, none, true, a3⟩]
+
+example : (result ⟨true, 100⟩ (mapk 10 10 10) 0).success = true ∧ (result ⟨true, 100⟩ (mapk 10 10 10) 0).final = some 3 ∧
+    (result ⟨true, 100⟩ (mapk 10 10 10) 0).amplification = 100 ∧
+    (result ⟨true, 1000⟩ (mapk 10 10 10) 0).amplification = 1000 ∧
+    (result ⟨true, 100⟩ (mapk 10 10 10) 0).log = [.proc 0 0, .cp 1 1 (.ok true), .proc 1 1, .cp 2 2 (.ok true), .proc 2 2] := by
+  decide +kernel
 
 end Operon.Cascade
